@@ -109,6 +109,8 @@ func init() {
 				}
 			}
 			out = append(out, Instance{Scenario: "c10_cb", Params: mustJSON(CBParams{Initial: 2, Event: "ghost", Perms: 1}), Bound: 0, Shards: 2, Note: "the index lists an instance whose document does not exist (died during registration)"})
+			out = append(out, Instance{Scenario: "c10_cb", Params: mustJSON(CBParams{Initial: 3, Event: "replace", Perms: 1}), Bound: 0, Shards: 4, Note: "an instance is replaced (dies, another registers before the death is noticed): the members that keep number and size announce nothing"})
+			out = append(out, Instance{Scenario: "c10_cb", Params: mustJSON(CBParams{Initial: 2, Event: "replace", Perms: 1}), Bound: 0, Shards: 2})
 			out = append(out, Instance{Scenario: "c10_cb", Params: mustJSON(CBParams{Initial: 3, Event: "hblost", Perms: 1}), Bound: 0, Shards: 4, Note: "the heart-beats of one running instance no longer reach the bucket"})
 			for tm := 1; tm <= 2; tm++ {
 				for _, ev := range []string{"join", "die"} {
@@ -266,6 +268,17 @@ func cbMain(p CBParams) {
 		}
 		cancel()
 		hist = append(hist, "ghost-entry-in-the-index")
+	case "replace":
+		// the youngest instance dies and another one registers before its death is noticed (a re-created pod): the
+		// round that sees both changes leaves every other member with the number and the group size it had
+		l := live()
+		v := l[len(l)-1]
+		v.alive = false
+		hist = append(hist, fmt.Sprintf("die(%d)", v.joinIdx))
+		round(false)
+		round(false) // its last heart-beat is 60 s old now: still inside the tolerance
+		join()
+		hist = append(hist, "join")
 	case "hblost":
 		l := live()
 		v := l[vrt.Choose(len(l), true, "victim")]
